@@ -149,10 +149,14 @@ Fixpoint prom_total (tr : list tev) (g : list (str * Z)) : list (str * Z) :=
 Definition zsum (g : list (str * Z)) : Z := fold_right (fun kv a => (snd kv + a)%Z) 0%Z g.
 
 (* ---- correspondence ---- *)
+(* what one connection reports: through martian's http.Handler net/http's server reads the requests, so a read event
+   without a request is never reported *)
+Definition conn_view (handler : bool) (tr : list tev) : list tev :=
+  if handler then filter (fun e => negb (t_read e) || t_hasreq e) tr else tr.
+
 Definition obs_model_ok (o : obs) : bool :=
   o_harness_ok o &&
-  list_eqb tev_eqb (if o_handler o then filter (fun e => negb (t_read e) || t_hasreq e) (conn_trace (o_exs o))
-                    else conn_trace (o_exs o)) (o_trace o) &&
+  list_eqb tev_eqb (conn_view (o_handler o) (conn_trace (o_exs o))) (o_trace o) &&
   forallb (fun x => negb (x_seen x) || (client_status x =? x_client x)) (o_exs o) &&
   (negb (o_check_end o) || Bool.eqb (o_closed o) (negb (last_keeps (o_exs o)))) &&
   gauge_eqb (prom_inflight (o_trace o) []) (o_inflight o) &&
